@@ -20,6 +20,10 @@ pub mod c07;
 pub mod c31;
 pub mod c17;
 pub mod c32;
+pub mod um;
+pub mod um_model;
+pub mod um_oracle;
+pub mod um_suites;
 
 pub fn for_property(p: &str) -> Vec<Suite> {
     match p {
@@ -45,6 +49,11 @@ pub fn for_property(p: &str) -> Vec<Suite> {
         "C31" => c31::suites(),
         "C17" => c17::suites(),
         "C32" => c32::suites(),
+        "C01" => um_suites::c01(),
+        "C02" => um_suites::c02(),
+        "C03" => um_suites::c03(),
+        "C04" => um_suites::c04(),
+        "C27" => um_suites::c27(),
         _ => vec![],
     }
 }
